@@ -5,6 +5,7 @@ Driver for C15.  One case = one history.  Op lines (integer tokens, `_` = resour
   add <name> <parentCode> <isParentCode> <tree> <forceCode> <rootCode> <swShape> <listErr>
       <npods> (<nsKind> <ns> <label|_>)*  <nsShape> <nns> <ns>*  <mnNil> <mxNil> <min>*3 <max>*3
   upd  (same layout)
+  madd (same layout; the create passes fillQuotaDefaultInformation first)
   del <name> <listErr> <npods> (<nsKind> <ns> <label|_>)*
 The codes are RAW shapes of the object (Model: `Raw`, `decodeQI`, `decodeOp`): parentCode 98 = label absent,
 99 = label "", else a name; boolean labels 0 "false" / 1 "true" / 2 absent / 3 other string; swShape 0 absent /
@@ -84,6 +85,10 @@ def parseToks (ts : List String) : Option RawOp :=
   | "add" :: rest =>
     match parseReq rest with
     | some (r, _, _) => some (.add r)
+    | none => none
+  | "madd" :: rest =>
+    match parseReq rest with
+    | some (r, _, _) => some (.madd r)
     | none => none
   | "upd" :: rest =>
     match parseReq rest with
